@@ -20,6 +20,10 @@ def jobs(tier, ws):
                           'symbol_map': 'i,new_id_PNCList::1::i'}]))
     js.append(Job('C17/del_from_PNCList', 'C17', FILE_C, 'C17_idtable.c', enforce='file.c::del_from_PNCList',
                   defines=['-DH_del_id'], canaries=['ok'], unwind=3, kind='proof', include_tus=INC, solver=['--arrays-uf-always']))
+    js.append(Job('C17/ncmpi_create', 'C17', FILE_C, 'C17_create.c', enforce='ncmpi_create', replace=['file.c::new_id_PNCList', 'file.c::del_from_PNCList', 'file.c::combine_env_hints'], rfp=True,
+                  canaries=['created_on_user_communicator', 'too_many_files', 'dup_failed', 'bad_mode'], unwind=8, kind='bounded', timeout=600, include_tus=INC, solver=['--sat-solver', 'cadical'],
+                  bound='no PNETCDF_* environment variable; create mode, process count (1..4), communicator kind, failure of MPI_Comm_dup / of the id table / of the driver symbolic; path of one character',
+                  assumptions=['ncmpi_create: NCI_Malloc / NCI_Free substituted by counting wrappers in this TU; MPI calls, getenv, ncmpio_inq_driver and the driver entries are harness stubs; new_id_PNCList / del_from_PNCList / combine_env_hints by summary contracts']))
     import C03
     js.append(C03.create_job('C17'))   # F26: a create that fails after MPI_File_open keeps no file handle
     return js
